@@ -401,9 +401,13 @@ static void ProcessFile(char const* pSrcName, int Index) {
             }
             for (z = 0; z < PartRun->RelocInfo->RelocCount; z++) {
                 PReloc = PartRun->RelocInfo->RelocEntries + z;
+                /* offset and width are tested one after the other: their sum
+                   wraps around for addresses at the very top */
+
                 if ((PReloc->Addr < PartRun->CodeStart)
-                    || (PReloc->Addr - PartRun->CodeStart + ((RelocBitCnt(PReloc->Type) + 7) >> 3)
-                        > Len)) {
+                    || (PReloc->Addr - PartRun->CodeStart > Len)
+                    || ((LargeWord)((RelocBitCnt(PReloc->Type) + 7) >> 3)
+                        > Len - (PReloc->Addr - PartRun->CodeStart))) {
                     FormatError(SrcName, getmessage(Num_FormatRelocInfoMissing));
                 }
                 Found  = True;
